@@ -3,10 +3,10 @@ package main
 import (
 	"bytes"
 	"encoding/json"
-	"go/format"
-	"go/parser"
 	"fmt"
 	"go/ast"
+	"go/format"
+	"go/parser"
 	"go/token"
 	"go/types"
 	"os"
@@ -192,6 +192,7 @@ func (w *World) foldRound(overlay map[string][]byte, st *foldState) map[string][
 			}
 			if !sameTypeParams(p.TypesInfo, s.call, s.callee, decls[s.callee], s.encl) {
 				st.failed[key] = true
+				foldDebug("%s: type parameters differ", key)
 				continue
 			}
 			content := func(name string) []byte {
@@ -205,6 +206,7 @@ func (w *World) foldRound(overlay map[string][]byte, st *foldState) map[string][
 			callee, err := xinline.AnalyzeCallee(func(string, ...any) {}, w.Fset, p.Types, p.TypesInfo, decls[s.callee], content(calleeFile))
 			if err != nil {
 				st.failed[key] = true
+				foldDebug("%s: callee: %v", key, err)
 				continue
 			}
 			res, err := func() (r *xinline.Result, err error) {
@@ -217,12 +219,13 @@ func (w *World) foldRound(overlay map[string][]byte, st *foldState) map[string][
 			}()
 			if err != nil {
 				st.failed[key] = true
+				foldDebug("%s: inline: %v", key, err)
 				continue
 			}
 			out[fname] = res.Content
-			if res.Literalized {
-				if b, k := unliteralize(fname, res.Content); k > 0 {
-					out[fname] = b
+			if b, k := unliteralize(fname, res.Content); true {
+				out[fname] = b
+				if k > 0 {
 					foldNotes = append(foldNotes, fmt.Sprintf("helper folding: %d function literal(s) of the inliner in %s turned into straight-line code (results in fresh variables, returns as labelled breaks)", k, strings.TrimPrefix(fname, w.Repo+"/")))
 				}
 			}
@@ -473,3 +476,9 @@ func foldAssumptions() []string {
 }
 
 var _ = packages.NeedName
+
+func foldDebug(format string, args ...any) {
+	if os.Getenv("VERIF_FOLD_DEBUG") != "" {
+		fmt.Fprintf(os.Stderr, "fold: "+format+"\n", args...)
+	}
+}
